@@ -24,5 +24,5 @@ def replay(vc, unit):
 INFO = {
     "trusted_base": [TB["T1"], TB["T2"], TB["T3"]],
     "assumptions": [],
-    "undecided_clauses": ["that no timeout armed for an earlier attempt is still pending when a new attempt starts (stale timers) is not decided: the ghost model counts armed timeouts but does not order them"],
+    "undecided_clauses": ["call_soon callbacks queued for an earlier attempt are counted but not tracked individually; that they run before the requesting task resumes is the event loop's FIFO order (A2)"],
 }
